@@ -61,6 +61,12 @@ class Rec:
 
 
 def run(sim):
+    # process-global mutable state (header-name cache) must not leak between runs in a warm worker
+    try:
+        from twisted.web import http_headers as _hh
+        _hh._nameEncoder._canonicalHeaderCache.clear()
+    except AttributeError:
+        pass
     nreq = sim.draw_int(1, 6, "nreq")
     timeout = sim.draw_choice([60, 60, 5, None], "timeout")
     hwm = sim.draw_choice([None, 30, 8], "hwm")
